@@ -46,3 +46,50 @@ V('C11', 'neg-reorder-arms', D, M + 'sdl_to_ddl',
                 elif isinstance(decl_ast, qlast.CreateGlobal):
                     ctx.objects[fq_name] = qltracer.Global(fq_name)
 ''', None)
+
+T = 'edb/edgeql/tracer.py'
+TM = 'edb.edgeql.tracer.'
+V('C11', 'overload-over-parents', D, M + '_register_item',
+  'ancestor_bases = ctx.ancestors.get(ctx.depstack[-1][1])', 'ancestor_bases = ctx.parents.get(ctx.depstack[-1][1])',
+  'C11.R5', 'overload-bases')
+V('C11', 'ancestors-not-transitive', D, M + 'get_ancestors',
+  '        result |= get_ancestors(fq_parent, ancestors, parents)\n', '        get_ancestors(fq_parent, ancestors, parents)\n',
+  'C11.R5', 'get_ancestors:transitive')
+V('C11', 'pointer-deps-over-parents', D, M + '_get_pointer_deps',
+  'for tansc in ctx.ancestors.get(', 'for tansc in ctx.parents.get(', 'C11.R5', '_get_pointer_deps')
+V('C11', 'with-module-not-default', T, TM + 'alias_context',
+  '''            if alias.alias:
+                ctx.modaliases[alias.alias] = alias.module
+            else:
+                # default module
+                ctx.module = alias.module
+''', '''            ctx.modaliases[alias.alias] = alias.module
+''', 'C11.R7', 'alias_context:default-module')
+V('C11', 'select-limit-untraced', T, TM + 'trace_Select',
+  '''            if node.limit is not None:
+                trace(node.limit, ctx=nctx)
+''', '', 'C11.R6', 'SelectQuery.limit')
+V('C11', 'ifelse-unregistered', T, TM + 'trace_IfElse',
+  '@trace.register\ndef trace_IfElse(', 'def trace_IfElse(', 'C11.R6', 'trace:IfElse')
+V('C11', 'insert-no-alias-context', T, TM + 'trace_InsertQuery',
+  '    with alias_context(ctx, node.aliases) as ctx:', '    if True:', 'C11.R6', 'trace_InsertQuery:alias-context')
+V('C11', 'hard-edge-loses-weak-flag', 'edb/common/topological.py', 'edb.common.topological.sort_ex',
+  'visit(n, weak_link=weak_link)', 'visit(n)', 'C11.R8', 'hard-recursion-flag')
+# negative controls: renaming the local, swapping the branches
+V('C11', 'neg-rename-ancestor-local', D, M + '_register_item',
+  '''        ancestor_bases = ctx.ancestors.get(ctx.depstack[-1][1])
+        if ancestor_bases:
+            for ancestor_base in ancestor_bases:''', '''        anc = ctx.ancestors.get(ctx.depstack[-1][1])
+        if anc:
+            for ancestor_base in anc:''', None)
+V('C11', 'neg-alias-branches-swapped', T, TM + 'alias_context',
+  '''            if alias.alias:
+                ctx.modaliases[alias.alias] = alias.module
+            else:
+                # default module
+                ctx.module = alias.module
+''', '''            if not alias.alias:
+                ctx.module = alias.module
+            else:
+                ctx.modaliases[alias.alias] = alias.module
+''', None)
